@@ -567,7 +567,13 @@ impl Scenario {
         let t = &self.tables;
         let liq: Vec<(String, String)> = self.dict.pools.values().map(|k| (poolkey_code(k), match k.liq_token_denom() { Denom::Custom(h) => hn(&h.0), _ => "0".into() })).collect();
         let mut liq = liq; liq.sort(); liq.dedup();
-        let tables = format!("{{| ot_hashes := {}; ot_sigs := {}; ot_reward := {}; ot_marker := {}; ot_liq := {}; ot_hdr := {}; ot_melpow := {}; ot_ed := {} |}}",
+        // the wallet's signature covenants as the library builds them (tie for STF/Proofs/StdCovenant.v)
+        let mut stdc: Vec<(bool, Vec<u8>, Vec<u8>)> = self.covs.values().filter_map(|c| match c.kind {
+            CovKind::SigNew(k) => Some((true, self.keys.pk[k].0.to_vec(), Covenant::std_ed25519_pk_new(self.keys.pk[k]).to_bytes().to_vec())),
+            CovKind::SigLegacy(k) => Some((false, self.keys.pk[k].0.to_vec(), Covenant::std_ed25519_pk_legacy(self.keys.pk[k]).to_bytes().to_vec())),
+            _ => None }).collect();
+        stdc.sort();
+        let tables = format!("{{| ot_hashes := {}; ot_sigs := {}; ot_reward := {}; ot_marker := {}; ot_liq := {}; ot_hdr := {}; ot_melpow := {}; ot_ed := {}; ot_std := {} |}}",
             cf::list(&t.hashes, |(a, b)| format!("({}, {})", cf::bytes(a), cf::bytes(b))),
             cf::list(&t.sigs, |((a, b, c), r)| format!("(({}, {}, {}), {})", cf::bytes(a), cf::bytes(b), cf::bytes(c), r)),
             cf::list(&t.reward.iter().collect::<Vec<_>>(), |(h, v)| format!("({}, {})", h, hn(v))),
@@ -575,7 +581,8 @@ impl Scenario {
             cf::list(&liq, |(a, b)| format!("({}, {})", a, b)),
             cf::list(&t.hdr, |h| format!("({}, {})", header(h), hn(&h.hash()))),
             cf::list(&t.melpow, |((p, s, c, d), v)| format!("(({}, {}, {}, {}), {})", p, hn(s), coin_key(c), d, v)),
-            cf::list(&t.ed, |((k, m, s), r)| format!("(({}, {}, {}), {})", U256::from_be_bytes(k.0), hn(m), cf::bytes(s), r)));
+            cf::list(&t.ed, |((k, m, s), r)| format!("(({}, {}, {}), {})", U256::from_be_bytes(k.0), hn(m), cf::bytes(s), r)),
+            cf::list(&stdc, |(n, pk, b)| format!("({}, ({}, {}))", n, cf::bytes(pk), cf::bytes(b))));
         let mut s = self.defs.join("\n");
         s.push_str(&format!("\nDefinition {} : scenario := {{| sc_tables := {};\n sc_init := {};\n sc_steps := [\n{}\n] |}}.\n", self.name, tables, self.init, self.steps.join(";\n")));
         s
